@@ -37,7 +37,7 @@ DESIGN_REF = "DESIGN.md 4 (C12)"
 ASSUMPTIONS = ["generator constrained to the quantifier: no chained or nested links"]
 
 # "A"/"a": names that differ in case only are different names
-NAMES = ["a", "b", "c", "d", "e", "A", "B"]
+NAMES = ["a", "b", "c", "d", "e", "A", "B", "a!", "a%21"]     # ("%21" is text, not an escape)
 REPOS = [None, None, None, "file:///nowhere/term_a.xml", "file:///nowhere/term_b.xml"]
 TYPES = ["t1", "t2", "T3", "hardware/Electrode"]      # types are free text: case and "/" included
 
